@@ -1,12 +1,13 @@
 (* Model of emmet/markup/__init__.py (parse), snippets.py, utils.py, attributes.py,
-   implicit_tag.py, lorem (name handling only), addon/xsl.py, addon/label.py; addon/bem.py is
-   model/MarkupBem.v and is hooked into transform_node here.
+   implicit_tag.py, lorem (header here, text generation in model/MarkupLorem.v), addon/xsl.py, addon/label.py;
+   addon/bem.py is model/MarkupBem.v and is hooked into transform_node here.
    markup.href: model/MarkupHref.v + insert_href / insert_wrap in model/MarkupConvert.v.  Definitions only. *)
-From Emmet Require Import lib.Base model.MarkupTokenizer model.MarkupParser model.MarkupConvert model.MarkupBem.
-From Emmet Require Import gen.GenImplicit.
+From Emmet Require Import lib.Base model.MarkupTokenizer model.MarkupParser model.MarkupConvert model.MarkupBem
+     model.MarkupLorem.
+From Emmet Require Import gen.GenImplicit gen.GenLorem.
 
 (* the part of Config the markup pipeline reads *)
-Record mconfig := mkMConfig {
+Record mconfig := mkMConfigD {
   mc_syntax : str;
   mc_snippets : list (str * str);
   mc_variables : list (str * str);
@@ -21,8 +22,14 @@ Record mconfig := mkMConfig {
   mc_bem : bool;                       (* options['bem.enabled'] *)
   mc_bem_element : str;                (* options['bem.element'] *)
   mc_bem_modifier : str;               (* options['bem.modifier'] *)
-  mc_context_class : option str }.     (* None when config.context is None, else
+  mc_context_class : option str;       (* None when config.context is None, else
                                           config.context.get('attributes', {}).get('class', '') (or '') *)
+  mc_draws : list Z }.                 (* the ORACLE of random.randint for lorem text (model/MarkupLorem.v): the raw
+                                          draws, consumed in the order the walk reaches the lorem nodes *)
+(* a configuration with the empty oracle (no lorem node in the abbreviation: the oracle is never consulted;
+   with a lorem node: OutOfFuel) -- the constructor every lorem-free statement uses *)
+Notation mkMConfig sy sn va te mr mrs jsx cn il ra hr be bel bmo cc :=
+  (mkMConfigD sy sn va te mr mrs jsx cn il ra hr be bel bmo cc []).
 Definition bem_cfg_of (cfg : mconfig) : bemcfg :=
   mkBemCfg (mc_bem_element cfg) (mc_bem_modifier cfg) (mc_context_class cfg).
 
@@ -186,27 +193,108 @@ Definition merge_attributes (rev_attrs : bool) (attrs : option (list aattr)) : o
   | None => attrs
   end.
 
-(* re_lorem: 'lorem', then letters, then digits, then an optional dash and digits, to the end; re.I (ASCII letters) *)
-Definition s_lorem : str := [108;111;114;101;109]%N.
+(* re_lorem = ^lorem(L* )(D* )(-D* )?$ with L = [a-z], D = \d, compiled with re.I: this SHAPE is hand-compiled; what each position accepts
+   (re.I case folding included: U+017F, U+212A, U+0130, U+0131 are "letters"), and what `$` tolerates after the match
+   (a final line feed) comes from gen/GenLorem.v, probed from the compiled regex with every code point.  \d = the
+   decimal characters (lib/Base.is_number; verified by the generator).  The classes are pairwise disjoint (verified by
+   the generator), so the greedy parse below is the only one. *)
+Fixpoint lit_prefix (classes : list (list N)) (s : str) : option str :=
+  match classes, s with
+  | [], _ => Some s
+  | cl :: cls, c :: r => if existsb (N.eqb c) cl then lit_prefix cls r else None
+  | _ :: _, [] => None
+  end.
+Definition is_lorem_letter (c : char) : bool := existsb (fun r => in_range (fst r) (snd r) c) lorem_letter_ranges.
+Definition lorem_at_end (r : str) : bool :=
+  match r with
+  | [] => true
+  | [c] => existsb (N.eqb c) lorem_end_chars
+  | _ => false
+  end.
 Inductive lorem_match := LNo | LYes (lang : str) (minw : option N) (maxw : option (option N)).
 Definition match_lorem (name : str) : lorem_match :=
-  if starts_with s_lorem (lower (firstn 5 name)) && Nat.eqb (length (firstn 5 name)) 5 then
-    let r := skipn 5 name in
-    let nl := span is_alpha r in
-    let r1 := skipn nl r in
-    let nd := span is_number r1 in
-    let r2 := skipn nd r1 in
-    match r2 with
-    | [] => LYes (firstn nl r) (match nd with O => None | _ => int_of_str (firstn nd r1) end) None
-    | c :: r3 =>
-        if (c =? c_dash)%N && Nat.eqb (span is_number r3) (length r3)
-        then LYes (firstn nl r) (match nd with O => None | _ => int_of_str (firstn nd r1) end)
-                  (Some (match r3 with [] => None | _ => int_of_str r3 end))
-        else LNo
-    end
-  else LNo.
-(* the generated paragraph is random: the model uses a fixed marker *)
-Definition lorem_text : str := [76;111;114;101;109]%N.
+  match lit_prefix lorem_prefix_classes name with
+  | None => LNo
+  | Some r =>
+      let nl := span is_lorem_letter r in
+      let r1 := skipn nl r in
+      let nd := span is_number r1 in
+      let r2 := skipn nd r1 in
+      let minw := match nd with O => None | _ => int_of_str (firstn nd r1) end in
+      if lorem_at_end r2 then LYes (firstn nl r) minw None
+      else match r2 with
+           | c :: r3 =>
+               if (c =? c_dash)%N then
+                 let nd2 := span is_number r3 in
+                 if lorem_at_end (skipn nd2 r3)
+                 then LYes (firstn nl r) minw (Some (match nd2 with O => None | _ => int_of_str (firstn nd2 r3) end))
+                 else LNo
+               else LNo
+           | [] => LNo
+           end
+  end.
+
+(* ---- lorem(node, ancestors, config), the part that draws random numbers.
+   The Python function does, for a node whose name matches re_lorem, in this order: word counts from the name,
+   word_count = randint(min, max), repeat = node.repeat or find_repeater(ancestors), name = attributes = None,
+   value = [paragraph(db, word_count, not repeat or repeat.value == 0)], and for a repeated node below the top
+   level resolve_implicit_tag.  It runs inside transform() of every node, preorder (utils.walk).
+
+   MODEL.  The draws influence nothing but the value of the lorem node itself (no later step of transform() of this
+   or of any other node reads the value of a lorem node: xsl tests only that the value is non-empty, which a
+   paragraph of >= 1 words always is and [lorem_fill_node] makes it so before transform runs; label and BEM read
+   names and attributes).  So the model generates all paragraphs in one PREORDER pass of its own over the resolved
+   tree ([lorem_fill_list], same node order as utils.walk, the stream threaded from node to node), writing each
+   paragraph into the value of its node; the transform pass below then performs the rest of lorem() (name and
+   attributes cleared, implicit tag) and keeps that value.  The test "name matches re_lorem" is made on the written
+   name here and on the name after implicit_tag() there: the same thing, because implicit_tag only names a node
+   whose name is empty, and gives it a table name / div / span (LoremProofs.lorem_test_agree).
+   [anc_rep] = find_repeater(ancestors): the repeater of the closest repeated ancestor. *)
+Definition own_or (rp anc_rep : option rep) : option rep := match rp with Some r => Some r | None => anc_rep end.
+Definition lorem_header (nm : option str) : lorem_match :=
+  match nm with
+  | Some ((_ :: _) as name) => match_lorem name
+  | _ => LNo                                                  (* `if not node.name: return` *)
+  end.
+Fixpoint lorem_fill_node (anc_rep : option rep) (n : anode) (s : list Z) {struct n} : lres anode :=
+  match n with
+  | ANode nm v rp at_ ch sc =>
+      let+ v1 from s1 :=
+        match lorem_header nm with
+        | LYes lang minw maxw =>
+            let common := match own_or rp anc_rep with None => true | Some r => (rvalue r =? 0)%N end in
+            let+ p from s1 := lorem_text lang minw maxw common s in
+            LOk (Some [VStr p]) s1
+        | LNo => LOk v s
+        end in
+      let+ ch' from s2 :=
+        (fix go (l : list anode) (s : list Z) : lres (list anode) :=
+           match l with
+           | [] => LOk [] s
+           | c :: r =>
+               let+ c' from s1 := lorem_fill_node (own_or rp anc_rep) c s in
+               let+ r' from s2 := go r s1 in
+               LOk (c' :: r') s2
+           end) ch s1 in
+      LOk (ANode nm v1 rp at_ ch' sc) s2
+  end.
+Fixpoint lorem_fill_list (l : list anode) (s : list Z) : lres (list anode) :=
+  match l with
+  | [] => LOk [] s
+  | c :: r =>
+      let+ c' from s1 := lorem_fill_node None c s in
+      let+ r' from s2 := lorem_fill_list r s1 in
+      LOk (c' :: r') s2
+  end.
+(* as a result of the pipeline: the draws left over are dropped; a stream that runs out is OutOfFuel *)
+Definition lres_to_res {A} (r : lres A) : res A :=
+  match r with
+  | LOk a _ => Ok a
+  | LExhausted => OutOfFuel
+  | LFuel => OutOfFuel
+  | LInternal k => Internal k
+  end.
+Definition lorem_fill (draws : list Z) (l : list anode) : res (list anode) := lres_to_res (lorem_fill_list l draws).
 
 Definition s_select : str := [115;101;108;101;99;116]%N.
 Definition s_xsl : str := [120;115;108]%N.
@@ -270,8 +358,9 @@ Definition transform_node_pre (cfg : mconfig) (parent_name : option (option str)
                  end in
       (* attributes *)
       let at1 := merge_attributes (mc_reverse_attrs cfg) at_ in
-      (* lorem: name and attributes are cleared, the value is the generated paragraph;
-         resolve_implicit_tag is called directly when the node is repeated and not top-level *)
+      (* lorem: name and attributes are cleared, the value is the generated paragraph -- already written into
+         [v] by lorem_fill_node (see there) --; resolve_implicit_tag is called directly when the node is repeated
+         and not top-level *)
       let is_lorem := match nm1 with
                       | Some ((_ :: _) as name) => match match_lorem name with LYes _ _ _ => true | LNo => false end
                       | _ => false
@@ -281,7 +370,7 @@ Definition transform_node_pre (cfg : mconfig) (parent_name : option (option str)
           ((match rp with
             | Some _ => if top then None else Some (implicit_name_of cfg parent_name)
             | None => None
-            end), Some [VStr lorem_text], None)
+            end), v, None)
         else (nm1, v, at1) in
       (* xsl *)
       let at3 :=
@@ -339,14 +428,20 @@ Fixpoint transform_tree (cfg : mconfig) (parent_name : option (option str)) (top
       end
   end.
 
-Fixpoint transform_list (cfg : mconfig) (l : list anode) : res (list anode) :=
+Fixpoint transform_forest (cfg : mconfig) (l : list anode) : res (list anode) :=
   match l with
   | [] => Ok []
   | c :: r =>
       let* (c', _, _) := transform_tree cfg None true false [] c in
-      let* r' := transform_list cfg r in
+      let* r' := transform_forest cfg r in
       Ok (c' :: r')
   end.
+
+(* walk(abbr, transform, config): the random draws of the lorem nodes (preorder, from the oracle of the
+   configuration), then everything else *)
+Definition transform_list (cfg : mconfig) (l : list anode) : res (list anode) :=
+  let* filled := lorem_fill (mc_draws cfg) l in
+  transform_forest cfg filled.
 
 (* markup.parse(abbr, config): the children of the final Abbreviation *)
 Definition markup_parse (cfg : mconfig) (abbr : str) : res (list anode) :=
